@@ -63,3 +63,8 @@ pub open spec fn cfb_buf_run(e: spec_fn(Blk) -> Blk, iv: Seq<u8>, pos: int, data
         (r.0, r.1, seq![o] + r.2)
     }
 }
+
+// OFB as a keystream generator: O_i = E(O_{i-1})
+pub open spec fn ofb_ks(e: spec_fn(Blk) -> Blk) -> KStep {
+    |a: KAbs| { let o = e(a.base); (KAbs { base: o, pos: a.pos }, o) }
+}
